@@ -4,3 +4,7 @@
 pub use crate::units::rib_unit::unit::verif_hooks_c01::{
     mk_runner, process_update, rib, Rib, RibUnitRunner,
 };
+
+/// The real BGP-session call site that turns one UPDATE into an `Update`
+/// (`bgp_tcp_in::router_handler::Processor::process_update`).
+pub use crate::units::bgp_tcp_in::router_handler::verif_hooks_c01::UpdateProcessor as BgpUpdateProcessor;
